@@ -344,6 +344,23 @@ fn reverse_variants(ctx: &mut Ctx, files: &Files, r: &mut Rng) -> Result<(), Fai
             }
             let mut v: Files = files.clone();
             v[3] = oplog;
+            // JS writes only dirty bitfield pages and tree nodes it knows: trailing all-zero pages
+            // / nodes may or may not be materialised. Vary that too.
+            match (tail + lname.len()) % 3 {
+                1 => {
+                    v[2].extend_from_slice(&[0u8; 4096]);
+                    v[0].extend_from_slice(&[0u8; 80]);
+                    ctx.count("synthetic:zero-padded-bitfield-and-tree");
+                }
+                2 => {
+                    while v[2].len() >= 4096 && v[2][v[2].len() - 4096..].iter().all(|b| *b == 0) {
+                        let n = v[2].len() - 4096;
+                        v[2].truncate(n);
+                        ctx.count("synthetic:trailing-zero-page-dropped");
+                    }
+                }
+                _ => {}
+            }
             let (st2, _op2) = refimpl::read_state(&v).map_err(|e| fail("harness:reference-reader-rejects-own-image", format!("{lname}/{tname}: {e}")))?;
             ctx.count(&format!("synthetic:{lname}"));
             ctx.count(&format!("synthetic:{tname}"));
